@@ -119,9 +119,9 @@ def module_add(rng, variants=VARIANTS, arches=None, invalid=0.25, memo=None):
     parts = [pick(rng, MODULE_NAMES), pick(rng, STREAMS)]
     n = rng.choice([2, 3, 4])
     if n >= 3:
-        parts.append(pick(rng, ["20180816142114", "820181213140247", "1"]))
+        parts.append(pick(rng, ["20180816142114", "820181213140247", "1", "2.1", "rolling", "8040020210520", "v1", "1-2"]))
     if n >= 4:
-        parts.append(pick(rng, ["6c81f848", "9edba152", "c0ffee42"]))
+        parts.append(pick(rng, ["6c81f848", "9edba152", "c0ffee42", "C0FFEE42", "x", "00000000", "a.b"]))
     v0, a0, uid0 = pick(rng, variants), pick(rng, arches), ":".join(parts)
     if memo is not None:
         if memo and rng.random() < 0.4:
@@ -241,10 +241,12 @@ def rpms_canonical_history(rng, n_srpms=4):
     rel = {"short": pick(rng, pools.SHORTS), "version": pick(rng, pools.VERSIONS_NUM)}
     ops = [{"op": "mf_init", "compose": pools.compose(rng, rel)}]
     adds = []
+    # the same source packages are shipped by several variants (a parent and its 'Parent-child' variant among them), each
+    # with or without its own source entry
+    shared = [nevra(rng, arch=pick(rng, ["src", "src", "nosrc"])) for _ in range(rng.randint(2, n_srpms + 1))]
     for variant in subset(rng, VARIANTS, 1, 3):
         arches = subset(rng, pools.ARCHES, 1, 3)
-        for _ in range(rng.randint(1, n_srpms)):
-            sd = nevra(rng, arch=pick(rng, ["src", "src", "nosrc"]))
+        for sd in subset(rng, shared, 1, min(n_srpms, len(shared))):
             skey = pick(rng, SIGKEYS)
             spath = "%s/source/SRPMS/%s/%s.src.rpm" % (variant, sd["name"][0], sd["name"])
             has_src = rng.random() < 0.8
